@@ -209,6 +209,10 @@ fn gen_impl_delegation_trait_defs(
     for trait_fn in trait_copy.fns.iter_mut() {
         if trait_fn.default_body.take().is_some() {
             crate::signature::fn_params::fix_fn_param_idents(&mut trait_fn.entrait_sig.sig);
+            // (hints for the code of the body are not for a method that has none)
+            trait_fn
+                .attrs
+                .retain(|attr| !attr.path().is_ident("inline") && !attr.path().is_ident("cold"));
         }
     }
 
